@@ -145,4 +145,24 @@ def fetchUnfixed (t : Target) : Nat → File → OldResult → List Outcome → 
       | [] => (.outOfUris, handedOf v f)
       | o :: outs' => fetchUnfixed t n (leftOf t o) v.toOld outs'
 
+/-- the value `spawn_bash` returns for one run → the model's `exit0` (the code tests `ret != 0`): an exit code
+0..255, or `signal <<< 8` (`(0x80 ||| signal) <<< 8` with a core dump) for a command killed by a signal
+(snakeoil `process_exit_code`) — non-zero although its low byte is 0 -/
+def Outcome.ofStatus (f : File) (ret : Nat) : Outcome := ⟨f, ret == 0⟩
+
+/-- one `fetch()` call on a long-lived fetcher object: the file put at the path from outside before the call
+(`none`: whatever the previous call left stays), the target — the same file name may come with other checksums —,
+`self.attempts`, and what the fetch command does for each URI -/
+structure Request where
+  pre : Option File
+  t : Target
+  n : Nat
+  outs : List Outcome
+
+/-- several `fetch()` calls on ONE fetcher object and distdir for one file name: each call starts from the file
+the previous one left (or from `pre`); the object carries nothing else from one call to the next -/
+def fetchSeq : File → List Request → List Run
+  | _, [] => []
+  | f, r :: rs => fetch r.t r.n (r.pre.getD f) r.outs :: fetchSeq (fetch r.t r.n (r.pre.getD f) r.outs).final rs
+
 end Pkgcore.C36
